@@ -609,7 +609,7 @@ func init() {
 	vk.Register(&vk.Spec{
 		ID:          "C04",
 		Level:       "exploration",
-		Rule:        "stable phase (timeout 30 s): 8..20 clients (one IP/different ports, different IPs incl. IPv6, shared and different keys) x 4 targets interleaved in random order for 6..12 rounds, then every outbound address learnt receives unsolicited datagrams with unique ids from two targets and two third-party sockets over IPv4 and IPv6; expiry phase (timeout 0.3 s): the same traffic with idle gaps so that associations expire and are re-created; rejected first datagrams (unauthenticated, RFC1918/loopback destination, bad address) from fresh clients; oracle over the recorded log with association epochs from the metrics recorder",
+		Rule:        "stable phase (timeout 30 s): 8..20 clients (one IP/different ports, different IPs incl. IPv6, shared and different keys) x 4 targets interleaved in random order for 6..12 rounds, then every outbound address learnt receives unsolicited datagrams with unique ids from two targets and two third-party sockets over IPv4 and IPv6; expiry phase (timeout 0.3 s): the same traffic with idle gaps so that associations expire and are re-created; rejected first datagrams (unauthenticated, RFC1918/loopback destination, bad address) from fresh clients; young associations (one datagram sent, then a stray datagram from port 53 of a third party, an oversized reply, a small one); one handler serving two listeners; oracle over the recorded log with association epochs from the metrics recorder",
 		Assumptions: []string{"scope: one packet handler (one generation); during a reload two generations legitimately hold separate tables (C11)"},
 		Batches:     func(t string) int { return map[string]int{"quick": 4, "thorough": 16}[t] },
 		Parallel:    func(t string) int { return 4 },
